@@ -54,3 +54,37 @@ End Assemble.
    assembled columns; pandas keeps dict insertion order for the columns *)
 Definition time_series {T V : Type} (times : list T) (readout_at : T -> list (str * V)) : list T * list (str * list V) :=
   (times, assemble (map readout_at times)).
+
+(* ---------- the curves of AbstractInventory.plot / InventoryHP.plot
+
+        ydata = np.zeros(shape=(npoints, len(display)))
+        for idx in range(0, npoints):
+            decayed_contents = self.decay(time_points[idx], xunits).<read-out>(yunits)
+            ydata[idx] = [decayed_contents[rad] for rad in display]        # KeyError if rad is missing
+        ... decay_graph(time_points=time_points, ydata=ydata.T, nuclides=display, ...)
+
+   one row per time point, one entry per displayed nuclide; the transposed table (one curve per displayed
+   nuclide) is what is drawn.  [None] models the KeyError. *)
+Fixpoint opt_all {A} (l : list (option A)) : option (list A) :=
+  match l with
+  | [] => Some []
+  | None :: _ => None
+  | Some a :: r => match opt_all r with Some s => Some (a :: s) | None => None end
+  end.
+
+Section Plot.
+Context {T V : Type}.
+Definition plot_row (display : list str) (contents : list (str * V)) : option (list V) :=
+  opt_all (map (fun rad => d_get rad contents) display).
+Definition plot_rows (times : list T) (readout_at : T -> list (str * V)) (display : list str) : option (list (list V)) :=
+  opt_all (map (fun t => plot_row display (readout_at t)) times).
+(* ydata.T[j] *)
+Definition column (j : nat) (rows : list (list V)) : option (list V) :=
+  opt_all (map (fun row => nth_error row j) rows).
+Definition plot_curves (times : list T) (readout_at : T -> list (str * V)) (display : list str) : option (list (str * list V)) :=
+  match plot_rows times readout_at display with
+  | None => None
+  | Some rows => opt_all (map (fun jr => option_map (pair (snd jr)) (column (fst jr) rows))
+                              (combine (seq 0 (length display)) display))
+  end.
+End Plot.
